@@ -194,6 +194,8 @@ def loop_exit_programs():
     conditions depend on x's parity and sign, so every program terminates for every input.
     yields (tag, Program, ret)"""
     mk = ExitGen(0)
+    dz = Func('!dz', [('k', INT, False)], EMPTY, [ExprStmt(Call('!truth_is_defeat', [Bin('==', Bin('%', Var('k', INT), Lit(INT, 2, keep=True)), Lit(INT, 1))]))])
+    DZ = lambda e: ExprStmt(Call(dz, [e]))      # noqa: E731   defeat iff e is odd
     c1 = lambda: Bin('==', Bin('%', X, Lit(INT, 2, keep=True)), Lit(INT, 0))      # noqa: E731
     c2 = lambda: Bin('<', X, Lit(INT, 0))                                            # noqa: E731
     c3 = lambda: Bin('>', X, Lit(INT, 1))                                            # noqa: E731
@@ -219,6 +221,21 @@ def loop_exit_programs():
             'return_in_nested_if': [If(c1(), [If(c3(), [r(3)]), m(), Continue()]), r()],
             'break_in_else_return': [If(c1(), [r(1)], [Break()])],
             # an earlier conditional exit and a later statement that never returns, in ONE statement list
+            # the last statement of the body has one arm that leaves and one that completes
+            'else_continues_then_completes': [If(c1(), [m()], [Continue()])],
+            'else_breaks_then_completes': [If(c1(), [m()], [m(), Break()])],
+            'else_returns_then_completes': [If(c2(), [r(8)], [m()]), If(c1(), [m()], [r(9)])],
+            'nested_block_break_last': [m(), Block([If(c2(), [Break()], [m()])])],
+            'try_last_handler_leaves': [Try([If(c1(), [ExprStmt(Call('!is_defeat', []))]), m()], 'stop', [If(c2(), [Break()]), Continue()])],
+            # a try nested in a stop handler, then a later try/undo whose body reaches defeat: the inner handler must not stay armed
+            'try_in_stop_handler_then_undo': [Try([DZ(Bin('+', X, Lit(INT, 1))), m()], 'stop',
+                                                  [m(), Try([DZ(Bin('+', X, Lit(INT, 1))), m()], 'stop', [m()]), m()]),
+                                              Try([m(), DZ(Lit(INT, 1)), m()], 'undo', [m()]),
+                                              Try([m(), DZ(X), m()], 'undo', [m()]),
+                                              If(c2(), [Break()])],
+            'try_in_undo_handler_then_stop': [Try([DZ(X), m()], 'undo',
+                                                  [Try([DZ(Lit(INT, 1)), m()], 'stop', [m()]), m()]),
+                                              Try([DZ(Bin('+', X, Lit(INT, 1))), m()], 'stop', [m()]), Try([DZ(Lit(INT, 3)), m()], 'undo', [m()]), If(c2(), [r(2)])],
             'break_then_win': [If(c2(), [m(), Break()]), ExprStmt(Call('all_is_win', []))],
             'break_then_broken': [If(c1(), [Break()]), m(), ExprStmt(Call('all_is_broken', []))],
             'return_then_win': [If(c1(), [r(4)]), ExprStmt(Call('all_is_win', []))],
@@ -236,7 +253,8 @@ def loop_exit_programs():
                             continue        # try blocks need a you-function
                         if flavor == '@' and not shape.startswith('try_') and (after == 'none' or loop in ('for_ever',)):
                             continue        # thin the product: flavour matters little here
-                        body = [dec()] + shapes(ret)[shape]
+                        # every iteration owns an array: whatever leaves or completes the body has to give it back
+                        body = [dec(), Decl('own', Arr(INT, False), ArrLit([X, FUEL], INT, False))] + shapes(ret)[shape] if loop != 'while_const_false' else [dec()] + shapes(ret)[shape]
                         if loop == 'while_cond':
                             lp = While(Bin('>', X, Lit(INT, 0)), body)
                         elif loop == 'while_true':
@@ -261,4 +279,4 @@ def loop_exit_programs():
                                     [ExprStmt(Call('write', [Lit(BYTE, ord('['))])), use, ExprStmt(Call('write', [Lit(BYTE, ord(']'))])),
                                      ExprStmt(Call('writeln', [FUEL]))])
                         yield (f'loopexit/{ret}/{shape}/{loop}/{after}/{flavor or "plain"}',
-                               Program([Decl('fuel', INT, Lit(INT, 6, keep=True))], [main, f, nxt]), ret)
+                               Program([Decl('fuel', INT, Lit(INT, 6, keep=True))], [main, f, nxt, dz]), ret)
